@@ -1410,7 +1410,7 @@ class Interp:
         if name == "open" or name.endswith("open_binary") or name.endswith("open_text"):
             return ("fobj", a[0] if a else top())
         if name == "re.compile" and a:
-            return ("regex", a[0])
+            return ("regex", a[0], a[1] if len(a) > 1 else kwargs.get("flags", const(0)))
         if name in ("os.path.join",):
             parts = []
             for x in a:
@@ -1463,9 +1463,9 @@ class Interp:
         if attr == "readlines" and k == "fobj":
             return ("lines", recv[1])
         if attr == "findall" and k == "regex":
-            return ("findall", recv[1], a[0] if a else top())
+            return ("findall", recv[1], a[0] if a else top(), recv[2])
         if attr in ("search", "match") and k == "regex":
-            return ("rematch", recv[1], a[0] if a else top())
+            return ("rematch", recv[1], a[0] if a else top(), recv[2])
         if attr == "items":
             return ("items", recv)
         if attr == "values":
